@@ -53,14 +53,14 @@ end LyModel.YangStr
 namespace LyModel.YangStr
 open LyModel.Utf8 LyModel.Generated
 
-/-- a double-quoted text body whose continuation lines carry `m + 1` blanks, read with the opening quote at (lexer)
-    column `col ≥ m`: faithful if no line ends in a blank and — unless the blanks reach exactly the column after the
-    quote (`m = col`) — no continuation line starts with one -/
-theorem dqBody_readQString (m col : Nat) (s rest : Bytes) (hm : m ≤ col) (hs : YChars s) (hcr : 13 ∉ s)
-    (hsn : NoSpNl s) (hns : m < col → NoNlSp s) (hr : RestOk rest) (k : Nat) :
-    ∃ ind', readQString col (34 :: (dqBody (spaces m) s ++ 34 :: (spaces k ++ rest))) = .ok (s, ind', rest) := by
-  obtain ⟨fuel', st', hf', _, hr', he'⟩ := dqBody_sim m (col + 1) (by omega) s hs hcr hsn (fun h => hns (by omega))
-    ((dqBody (spaces m) s ++ 34 :: (spaces k ++ rest)).length + 1)
+/-- a double-quoted text body whose continuation lines carry `n` blanks, read with the opening quote at (lexer)
+    column `col` (`n ≤ col + 1`): faithful — if the blanks do not reach the column after the quote (`n < col + 1`),
+    provided no continuation line starts with a blank -/
+theorem dqBody_readQString (n col : Nat) (s rest : Bytes) (hn : n ≤ col + 1) (hs : YChars s) (hcr : 13 ∉ s)
+    (hns : n < col + 1 → NoNlSp s) (hr : RestOk rest) (k : Nat) :
+    ∃ ind', readQString col (34 :: (dqBody n false s ++ 34 :: (spaces k ++ rest))) = .ok (s, ind', rest) := by
+  obtain ⟨fuel', st', hf', _, hr', he'⟩ := dqBody_sim n (col + 1) hn (by omega) s hs hcr hns false
+    ((dqBody n false s ++ 34 :: (spaces k ++ rest)).length + 1)
     { bi := col + 1, ci := col + 1, tws := 0, ind := col + 1, racc := [] } (34 :: (spaces k ++ rest))
     ⟨rfl, Nat.le_refl _, fun h => absurd h (Nat.lt_irrefl _), fun h => absurd rfl h⟩ (Nat.le_refl _)
   obtain ⟨f, rfl⟩ : ∃ f, fuel' = ((f + 1) + k) + 1 := ⟨fuel' - (k + 2), by simp [spaces_length] at hf'; omega⟩
@@ -69,9 +69,9 @@ theorem dqBody_readQString (m col : Nat) (s rest : Bytes) (hm : m ≤ col) (hs :
   rw [he', qloop_dq_quote, qloop_next_spaces, qloop_next_done _ _ _ hr]
   simp [hr']
 
-theorem sqBody_readQString (m col : Nat) (s rest : Bytes) (hs : YChars s) (hnl : 10 ∉ s) (hr : RestOk rest) (k : Nat) :
+theorem sqBody_readQString (m col : Nat) (s rest : Bytes) (hs : YChars s) (hr : RestOk rest) (k : Nat) :
     ∃ ind', readQString col (39 :: (sqBody (spaces m) false s ++ 39 :: (spaces k ++ rest))) = .ok (s, ind', rest) := by
-  obtain ⟨fuel', st', hf', hr', he'⟩ := sqBody_sim m s hs hnl false
+  obtain ⟨fuel', st', hf', hr', he'⟩ := sqBody_sim m s hs false
     ((sqBody (spaces m) false s ++ 39 :: (spaces k ++ rest)).length + 1)
     { bi := 0, ci := 0, tws := 0, ind := col + 1, racc := [] } (39 :: (spaces k ++ rest)) (Nat.le_refl _)
   obtain ⟨f, rfl⟩ : ∃ f, fuel' = ((f + 1) + k) + 1 := ⟨fuel' - (k + 2), by simp [spaces_length] at hf'; omega⟩
@@ -92,22 +92,23 @@ theorem indentOf_eq (fmt : Bool) (level : Nat) : indentOf fmt level = spaces (in
 theorem incLevel_eq (level : Nat) (h : level + 1 < 65536) : incLevel level = level + 1 := by
   simp [incLevel, Nat.mod_eq_of_lt h]
 
-theorem printTextArg_single (fmt : Bool) (level flags : Nat) (text : Bytes)
+theorem printTextArg_single (fmt : Bool) (level flags nameLen : Nat) (text : Bytes)
     (h : (flagSingleLine flags && !(flagSingleQuoted flags && text.contains 39)) = true) :
-    printTextArg fmt level flags text =
+    printTextArg fmt level flags nameLen text =
       32 :: (if flagSingleQuoted flags then 39 else 34) ::
-        ((if flagSingleQuoted flags then sqBody (indentOf fmt level) false text else dqBody (indentOf fmt level) text) ++
+        ((if flagSingleQuoted flags then sqBody (indentOf fmt level) false text
+          else dqBody ((indentOf fmt level).length + nameLen + 2) false text) ++
           [if flagSingleQuoted flags then 39 else 34]) := by
   unfold printTextArg
   simp only [h, if_true]
   rfl
 
-theorem printTextArg_block (fmt : Bool) (level flags : Nat) (text : Bytes)
+theorem printTextArg_block (fmt : Bool) (level flags nameLen : Nat) (text : Bytes)
     (h : (flagSingleLine flags && !(flagSingleQuoted flags && text.contains 39)) = false) :
-    printTextArg fmt level flags text =
+    printTextArg fmt level flags nameLen text =
       10 :: (indentOf fmt (incLevel level) ++ (if flagSingleQuoted flags then 39 else 34) ::
         ((if flagSingleQuoted flags then sqBody (indentOf fmt (incLevel level)) false text
-          else dqBody (indentOf fmt (incLevel level)) text) ++
+          else dqBody ((indentOf fmt (incLevel level)).length + 1) false text) ++
           [if flagSingleQuoted flags then 39 else 34])) := by
   unfold printTextArg
   simp only [h, Bool.false_eq_true, if_false]
@@ -120,33 +121,35 @@ theorem getArgLoop_nl_spaces (maybe : Bool) (k fuel ind : Nat) (cs : Bytes) (r :
   obtain ⟨f, rfl⟩ : ∃ f, fuel = ((f + 1) + k) + 1 := ⟨fuel - (k + 2), by omega⟩
   rw [getArgLoop_nl, getArgLoop_spaces, h]
 
-/-- double-quoted `ypr_text` output read by `get_argument` -/
-theorem text_dq_getArgument (maybe fmt : Bool) (level flags ind : Nat) (s rest : Bytes)
-    (hq : flagSingleQuoted flags = false) (hs : YChars s) (hcr : 13 ∉ s) (hsn : NoSpNl s)
-    (hns : flagSingleLine flags = true → NoNlSp s) (hind : flagSingleLine flags = true → (indentOf fmt level).length ≤ ind)
+/-- double-quoted `ypr_text` output read by `get_argument`; in a single-line statement the lexer's column counter
+    after the keyword is the true column (`ind = indentation + length of the name`) -/
+theorem text_dq_getArgument (maybe fmt : Bool) (level flags nameLen ind : Nat) (s rest : Bytes)
+    (hq : flagSingleQuoted flags = false) (hs : YChars s) (hcr : 13 ∉ s)
+    (hind : flagSingleLine flags = true → ind = (indentOf fmt level).length + nameLen)
     (hr : RestOk rest) (k : Nat) :
-    ∃ ind', getArgument maybe ind (printTextArg fmt level flags s ++ (spaces k ++ rest)) =
+    ∃ ind', getArgument maybe ind (printTextArg fmt level flags nameLen s ++ (spaces k ++ rest)) =
       .ok { word := some s, flags := LYS_DOUBLEQUOTED, ind := ind', rest := rest } := by
   cases hsl : flagSingleLine flags with
   | true =>
-    have harg : printTextArg fmt level flags s ++ (spaces k ++ rest) =
-        32 :: 34 :: (dqBody (spaces (indentOf fmt level).length) s ++ 34 :: (spaces k ++ rest)) := by
-      rw [printTextArg_single _ _ _ _ (by simp [hsl, hq]), ← indentOf_eq]
+    have harg : printTextArg fmt level flags nameLen s ++ (spaces k ++ rest) =
+        32 :: 34 :: (dqBody ((indentOf fmt level).length + nameLen + 2) false s ++ 34 :: (spaces k ++ rest)) := by
+      rw [printTextArg_single _ _ _ _ _ (by simp [hsl, hq])]
       simp [hq]
-    obtain ⟨ind', h⟩ := dqBody_readQString (indentOf fmt level).length (ind + 1) s rest (by have := hind hsl; omega) hs hcr hsn
-      (fun _ => hns hsl) hr k
+    have hi := hind hsl
+    obtain ⟨ind', h⟩ := dqBody_readQString ((indentOf fmt level).length + nameLen + 2) (ind + 1) s rest (by omega) hs hcr
+      (fun h => absurd h (by omega)) hr k
     refine ⟨ind', ?_⟩
     rw [harg]
     simp only [getArgument, List.length_cons]
     rw [getArgLoop_space, getArgLoop_quote _ _ _ _ _ _ _ h]
   | false =>
-    have harg : printTextArg fmt level flags s ++ (spaces k ++ rest) =
+    have harg : printTextArg fmt level flags nameLen s ++ (spaces k ++ rest) =
         10 :: (spaces (indentOf fmt (incLevel level)).length ++
-          34 :: (dqBody (spaces (indentOf fmt (incLevel level)).length) s ++ 34 :: (spaces k ++ rest))) := by
-      rw [printTextArg_block _ _ _ _ (by simp [hsl]), ← indentOf_eq]
+          34 :: (dqBody ((indentOf fmt (incLevel level)).length + 1) false s ++ 34 :: (spaces k ++ rest))) := by
+      rw [printTextArg_block _ _ _ _ _ (by simp [hsl]), ← indentOf_eq]
       simp [hq]
-    obtain ⟨ind', h⟩ := dqBody_readQString (indentOf fmt (incLevel level)).length (0 + (indentOf fmt (incLevel level)).length) s rest
-      (by omega) hs hcr hsn (fun h => absurd h (by omega)) hr k
+    obtain ⟨ind', h⟩ := dqBody_readQString ((indentOf fmt (incLevel level)).length + 1) (0 + (indentOf fmt (incLevel level)).length) s rest
+      (by omega) hs hcr (fun h => absurd h (by omega)) hr k
     refine ⟨ind', ?_⟩
     rw [harg]
     unfold getArgument
@@ -156,29 +159,29 @@ theorem text_dq_getArgument (maybe fmt : Bool) (level flags ind : Nat) (s rest :
       exact getArgLoop_quote _ _ _ _ _ _ _ h
 
 /-- single-quoted `ypr_text` output read by `get_argument` -/
-theorem text_sq_getArgument (maybe fmt : Bool) (level flags ind : Nat) (s rest : Bytes)
-    (hq : flagSingleQuoted flags = true) (hs : YChars s) (hnl : 10 ∉ s) (hr : RestOk rest) (k : Nat) :
-    ∃ ind', getArgument maybe ind (printTextArg fmt level flags s ++ (spaces k ++ rest)) =
+theorem text_sq_getArgument (maybe fmt : Bool) (level flags nameLen ind : Nat) (s rest : Bytes)
+    (hq : flagSingleQuoted flags = true) (hs : YChars s) (hr : RestOk rest) (k : Nat) :
+    ∃ ind', getArgument maybe ind (printTextArg fmt level flags nameLen s ++ (spaces k ++ rest)) =
       .ok { word := some s, flags := LYS_SINGLEQUOTED, ind := ind', rest := rest } := by
   cases hsl : (flagSingleLine flags && !(flagSingleQuoted flags && s.contains 39)) with
   | true =>
-    have harg : printTextArg fmt level flags s ++ (spaces k ++ rest) =
+    have harg : printTextArg fmt level flags nameLen s ++ (spaces k ++ rest) =
         32 :: 39 :: (sqBody (spaces (indentOf fmt level).length) false s ++ 39 :: (spaces k ++ rest)) := by
-      rw [printTextArg_single _ _ _ _ hsl, ← indentOf_eq]
+      rw [printTextArg_single _ _ _ _ _ hsl, ← indentOf_eq]
       simp [hq]
-    obtain ⟨ind', h⟩ := sqBody_readQString (indentOf fmt level).length (ind + 1) s rest hs hnl hr k
+    obtain ⟨ind', h⟩ := sqBody_readQString (indentOf fmt level).length (ind + 1) s rest hs hr k
     refine ⟨ind', ?_⟩
     rw [harg]
     simp only [getArgument, List.length_cons]
     rw [getArgLoop_space, getArgLoop_squote _ _ _ _ _ _ _ h]
   | false =>
-    have harg : printTextArg fmt level flags s ++ (spaces k ++ rest) =
+    have harg : printTextArg fmt level flags nameLen s ++ (spaces k ++ rest) =
         10 :: (spaces (indentOf fmt (incLevel level)).length ++
           39 :: (sqBody (spaces (indentOf fmt (incLevel level)).length) false s ++ 39 :: (spaces k ++ rest))) := by
-      rw [printTextArg_block _ _ _ _ hsl, ← indentOf_eq]
+      rw [printTextArg_block _ _ _ _ _ hsl, ← indentOf_eq]
       simp [hq]
     obtain ⟨ind', h⟩ := sqBody_readQString (indentOf fmt (incLevel level)).length (0 + (indentOf fmt (incLevel level)).length) s rest
-      hs hnl hr k
+      hs hr k
     refine ⟨ind', ?_⟩
     rw [harg]
     unfold getArgument
